@@ -2,7 +2,7 @@
  * One run = one scenario; everything observable goes to the history file (text) and the packet file (binary).
  *
  *   svt_scn out=<prefix> w=<W> h=<H> n=<frames> [key=value ...]
- * keys: content=<0 gradient|1 noise|2 moving blocks|3 flat|4 extremes|5 screen-like|6 static column + noisy texture + fast squares> cseed=<int>
+ * keys: content=<0 gradient|1 noise|2 moving blocks|3 flat|4 extremes|5 screen-like|6 static column + noisy texture + fast squares|7 static noise (the same noisy picture every frame)|8 zooming / rotating block texture> cseed=<int>
  *       bits=<8|10> stride_pad=<int> padfill=<0..255|256 random> scribble=<0|1> (overwrite+free caller buffer after send)
  *       pace=<0 drain at end|1 poll after every send|k>=2 poll every k sends|-1 random polling> pseed=<int> delay_us=<pause between a submission and the poll that follows it>
  *       recon=<0|1> stat=<0|1> decode=<0|1> dec_threads=<int> dec16=<0|1> eos_mode=<0 separate EOS buffer|1 flag on last picture>
@@ -59,6 +59,12 @@ static int sample(int k, int x, int y, int plane) {
               int band = Y / 32, yy = Y % 32, xx = ((X - 64) - 10 * k - 37 * band) % 96; if (xx < 0) xx += 96;
               if (yy >= 10 && yy < 22 && xx < 12) v = ((xx / 4 + yy / 4) & 1) ? 235 : 20;
               break; }
+    case 7: { unsigned s = (unsigned)((cseed + 3) * 2654435761u) ^ (unsigned)(plane * 131) ^ (unsigned)(y * 7919 + x * 17); s ^= s << 13; s ^= s >> 17; s ^= s << 5;
+              int sc = plane ? 2 : 1; int X = x * sc, Y = y * sc; v = 90 + ((X / 24 + Y / 24) & 1) * 50 + (int)((s >> 9) % 41) - 20; if (plane) v = 128 + (int)((s >> 9) % 9) - 4; break; }
+    case 8: { int sc = plane ? 2 : 1; int X = x * sc - W / 2, Y = y * sc - Hh / 2;
+              int zx = (X * (256 + 5 * k) - Y * (3 * k)) / 256 + W / 2 + 1000, zy = (Y * (256 + 5 * k) + X * (3 * k)) / 256 + Hh / 2 + 1000;
+              unsigned s = (unsigned)((cseed + 11) * 2654435761u) ^ (unsigned)((zy / 14) * 7919 + (zx / 14)); s ^= s << 13; s ^= s >> 17; s ^= s << 5;
+              v = plane ? 128 + (int)((s >> 5) % 31) - 15 : 40 + (int)((s >> 7) % 180); break; }
     default: { int sc = plane ? 2 : 1; int X = x * sc, Y = y * sc; v = ((X / 16) * 37 + (Y / 16) * 101 + cseed) & 255; if (((X % 16) == 3 || (Y % 16) == 5)) v = 16; if ((k & 3) == 3 && X < 32 && Y < 32) v = 200; break; }
     }
     if (bits > 8) v = (v << (bits - 8)) | (v >> (16 - bits));
@@ -284,6 +290,27 @@ int main(int argc, char **argv) {
                             sq->order_hint_info.enable_order_hint, sq->order_hint_info.order_hint_bits, sq->order_hint_info.enable_jnt_comp, sq->order_hint_info.enable_ref_frame_mvs,
                             sq->enable_superres, sq->cdef_level, sq->enable_restoration, sq->sb_size == BLOCK_128X128, sq->film_grain_params_present, sq->seq_force_screen_content_tools, sq->still_picture);
                     if (fh->show_existing_frame == 0 && fh->frame_type == KEY_FRAME && fh->show_frame && k > 0 && nkeypk < 4096 && (nkeypk == 0 || keypk[nkeypk - 1] != k)) keypk[nkeypk++] = k;
+                    {   /* per-block tool usage of the frame just parsed (decoder mode-info arrays), global-motion types of its header */
+                        unsigned nb = 0, pal = 0, ibc = 0, obmc = 0, warp = 0, fint = 0, cfl = 0, ii = 0, gm = 0, cmp = 0;
+                        if (!fh->show_existing_frame && e == EB_ErrorNone) {
+                            FrameMiMap *mm = &dh->main_frame_buf.frame_mi_map;
+                            for (int sb = 0; sb < mm->sb_rows * mm->sb_cols; sb++) {
+                                SBInfo *si_ = mm->pps_sb_info ? mm->pps_sb_info[sb] : NULL;
+                                if (!si_ || !si_->sb_mode_info) continue;
+                                for (int bi = 0; bi < si_->num_block; bi++) {
+                                    BlockModeInfo *m = &si_->sb_mode_info[bi]; nb++;
+                                    pal += (m->palette_size[0] > 0 || m->palette_size[1] > 0); ibc += m->use_intrabc != 0;
+                                    int inter = m->use_intrabc || m->ref_frame[0] > INTRA_FRAME;
+                                    obmc += inter && m->motion_mode == OBMC_CAUSAL; warp += inter && m->motion_mode == WARPED_CAUSAL;
+                                    fint += !inter && m->filter_intra_mode_info.use_filter_intra; cfl += !inter && m->uv_mode == UV_CFL_PRED;
+                                    ii += !m->use_intrabc && m->ref_frame[0] > INTRA_FRAME && m->ref_frame[1] == INTRA_FRAME; cmp += inter && m->ref_frame[1] > INTRA_FRAME;
+                                }
+                            }
+                            if (dh->cur_pic_buf[0]) for (int r = 1; r < 8; r++) gm += dh->cur_pic_buf[0]->global_motion[r].gm_type > TRANSLATION;
+                        }
+                        fprintf(H, " nblk=%u pal=%u ibc=%u obmc=%u warpblk=%u fintra=%u cfl=%u interintra=%u gm=%u compound=%u tcols=%u trows=%u", nb, pal, ibc, obmc, warp, fint, cfl, ii, gm, cmp,
+                                (unsigned)fh->tiles_info.tile_cols, (unsigned)fh->tiles_info.tile_rows);
+                    }
                     fprintf(H, " refidx=");
                     for (int r = 0; r < 7; r++) fprintf(H, "%s%u", r ? "," : "", fh->ref_frame_idx[r]);
                     fprintf(H, "\n");
